@@ -6,43 +6,43 @@ import checks as CK
 
 T = {
  'C01': ('exploration', 'E-INPUT', 'bounded-exhaustive enumeration + reference model + composition oracle',
-         "Every string over a 12-class alphabet up to 6 (thorough 8) tokens, every byte at 19 structural positions (+pairs), length/placement ladders, in 4 modes x tld on/off: decision equals the three-valued reference (split at last '@', 1-64 octets, ref_local, ref_domainpart / independent IDN conversion); rc equals the composition of the library's own part validators on stand-alone copies (DC-4 for simultaneous reasons); eav_is_email == is_<rfc>_email incl. mode binding before/after other setups. Plus bracket-content odometer and octet products (zero octets), and the long-input corpora (U-label domains beyond 255 UTF-8 bytes, soft-hyphen padding to 3 KiB, alternative dots, label tails, maximal literals + junk).",
+         "Every string over a 12-class alphabet up to 6 (thorough 8) tokens, every byte at 19 structural positions (+pairs), length/placement ladders, in 4 modes x tld on/off: decision equals the three-valued reference (split at last '@', 1-64 octets, ref_local, ref_domainpart / independent IDN conversion); rc equals the composition of the library's own part validators on stand-alone copies (DC-4 for simultaneous reasons); eav_is_email == is_<rfc>_email incl. mode binding before/after other setups. Plus bracket-content odometer and octet products (zero octets), and the long-input corpora (U-label domains beyond 255 UTF-8 bytes, soft-hyphen padding to 3 KiB, alternative dots, label tails, maximal literals + junk, 40 local-part shapes x 36 domain parts, every code point as a whole domain). Plus 'huge' inputs: five oversized-part shapes at every length k*2^8+d and k*2^16+d (d = 0..70, 250..258; thorough also 2^24, 2^31, 2^32 + d) - the lengths at which a counter narrower than size_t wraps - must be rejected in every mode.",
          "Trusted: the reference models in ref/ (written from the property text), libidn2 for the independent U->A conversion in mode 6531. Strings longer than the stated bounds with >2 deviations are not covered.", '4/C01'),
  'C02': ('model_checking', 'E-INPUT', 'explicit reference DFA x implementation product exploration (W-method binding) + bounded-exhaustive strings',
          "The three ASCII scanners are compared with explicit byte-level reference DFAs (35 product states incl. the strict/lenient DC-1 pair): L1 all strings of <=6 (8) tokens over 13 byte classes; L2 every reference state x every byte 0x01-0xFF x every continuation of <=3 tokens, plus the explicit W-method suite S.Sigma.Sigma_c^<=m.W (m=2, thorough 3) and all byte pairs; L3 long inputs with <=2 deviations; three call contexts (NUL-terminated, followed by '@', through eav_is_email).",
          "If the implementation's language is recognised by an automaton with at most |Q_ref|+m states whose behaviour beyond the first deviating byte respects the class partition, agreement on the L2 suite implies agreement on all strings; L1 needs no assumption. DC-1 strings (escaped quote/whitespace as neighbour of whitespace in mode 5322) are ANY.", '4/C02, 3.1'),
  'C03': ('model_checking', 'E-INPUT', 'explicit reference DFA (UTF-8 x RFC 5321 grammar) product exploration + exhaustive UTF-8 sweeps',
-         "Mode 6531 scanner vs the byte-level product DFA (strict UTF-8 Table 3-7 x grammar, 21 states): L1 <=6 (8) tokens over 12 classes incl. 2/3/4-byte characters and stray bytes; L2 + W-method as C02 over all 255 bytes in every state incl. mid-character states; ALL 1-, 2- and 3-byte sequences and a boundary cover of 4-byte sequences in five contexts (thorough: all 4-byte sequences with a non-ASCII lead); a.X.b for every one of the 1,111,936 non-ASCII scalars; pure-ASCII strings differential against is_5321_local.",
+         "Mode 6531 scanner vs the byte-level product DFA (strict UTF-8 Table 3-7 x grammar, 21 states): L1 <=6 (8) tokens over 12 classes incl. 2/3/4-byte characters and stray bytes; L2 + W-method as C02 over all 255 bytes in every state incl. mid-character states; ALL 1-, 2- and 3-byte sequences and a boundary cover of 4-byte sequences in five contexts (thorough: all 4-byte sequences with a non-ASCII lead); a.X.b for every one of the 1,111,936 non-ASCII scalars; pure-ASCII strings differential against is_5321_local; a refusal with a positive code is followed through eav_is_email with every TLD class allowed.",
          "Same W-method assumption as C02. Default build only (options are C17).", '4/C03'),
  'C04': ('exploration', 'E-INPUT', 'bounded-exhaustive enumeration + counter ladders against a splitter reference',
-         "All strings of <=7 (9) tokens over {a,Z,1,-,.,_,!,0x80}; 25 base domains x every position x every byte (insert/substitute) + adjacent byte pairs; every label length 0..70 in every position of 1..5-label domains, hyphen at every position, every total length 235..262 x last label 1..63 x root dot; through is_ascii_domain, the three ASCII address validators, is_utf8_domain and is_6531_email (expected value in mode 6531 = reference applied to an independent libidn2 conversion). Plus U-label domains of 1-7 labels x 8-56 letters and soft-hyphen padded domains up to 3 KiB (mode 6531), alternative dots, label tails of 58-70 characters.",
+         "All strings of <=7 (9) tokens over {a,Z,1,-,.,_,!,0x80}; 25 base domains x every position x every byte (insert/substitute) + adjacent byte pairs; every label length 0..70 in every position of 1..5-label domains, hyphen at every position, every total length 235..262 x last label 1..63 x root dot; through is_ascii_domain, the three ASCII address validators, is_utf8_domain and is_6531_email (expected value in mode 6531 = reference applied to an independent libidn2 conversion). Plus U-label domains of 1-7 labels x 8-56 letters and soft-hyphen padded domains up to 3 KiB (mode 6531), alternative dots, label tails of 58-70 characters; the label COUNT sweep (n = 1..140 equal labels of 1..63 characters, 127 x 1 = 253 included); the empty domain handed to is_utf8_domain.",
          "ref_domain() is a splitter with no running counters written from the statement. Mode 6531 trusts libidn2 for the conversion itself (DC-6).", '4/C04'),
  'C05': ('exploration', 'E-INPUT', 'bounded-exhaustive enumeration + structured products against a recursive-descent reference',
-         "Raw token strings after x@ (<=6/8 tokens, brackets in the alphabet) and as bracket content (<=7/9 tokens); 18^4 octet spellings, every value 0..300 in every position, 3/5 octets, stray dots; IPv6 shapes: groups before/after '::' 0..8 x widths 0..5 at every index x 6 tails x 8 tags x stray colons; every byte before/after each bracket and at every content position, every 1-2 tokens after ']'; 4 modes x tld on/off; family flag; the part validators on stand-alone copies. Plus maximal-length valid literals followed by junk inside/after the brackets and every proper prefix.",
+         "Raw token strings after x@ (<=6/8 tokens, brackets in the alphabet) and as bracket content (<=7/9 tokens); 18^4 octet spellings, every value 0..300 in every position, 3/5 octets, stray dots; IPv6 shapes: groups before/after '::' 0..8 x 27 group spellings (widths 0..5, zero-led, over-wide, very long, non-hex) at every index x 6 tails x 8 tags x stray colons; every literal behind 3 local-part shapes (one quoted with a colon, one quoted with dots, brackets and '@'); every byte before/after each bracket and at every content position, every 1-2 tokens after ']'; 4 modes x tld on/off; family flag; the part validators on stand-alone copies and with 14 different tails placed after the end pointer. Plus maximal-length valid literals followed by junk inside/after the brackets and every proper prefix.",
          "Three-valued: must-reject uses the permissive RFC 4291 grammar (tag optional, case-insensitive), must-accept the strict RFC 5321 4.1.3 grammar with literal 'IPv6:' and non-zero first octet (DC-2).", '4/C05'),
  'C06': ('exploration', 'E-INPUT + monitors', 'bounded-exhaustive enumeration under sanitizer / guard-page / cost / memcheck monitors',
-         "All nine corpora (token odometers, table rows, IDN products, every byte at every template position, length ladder to 64 KiB) through every public entry point, each input in a fresh exact-size heap buffer under ASan+UBSan with a LeakSanitizer query per shard; again against PROT_NONE guard pages on both sides (plain build); deterministic cost (basic blocks + libc bytes) <= 64n+30000 per call; the C13 history search to depth 3 under valgrind memcheck with the eav_t in uninitialised heap memory (the poison differential over all histories is part of C13).",
+         "All corpora (token odometers, table rows, IDN products, every byte at every template position, length ladder to 64 KiB, local-part x domain-part shapes, every code point of the default-ignorable ranges - thorough: every scalar - as a whole domain) through every public entry point, each input in a fresh exact-size heap buffer under ASan+UBSan with a LeakSanitizer query per shard; again against PROT_NONE guard pages on both sides (plain build); deterministic cost (basic blocks + libc bytes) <= 64n+30000 per call; the C13 history search to depth 3 under valgrind memcheck with the eav_t in uninitialised heap memory (the poison differential over all histories is part of C13).",
          "UB that no sanitizer models and allocation failure inside libeav are out of scope; work inside libidn2 is not counted.", '4/C06'),
  'C07': ('exploration', 'E-INPUT', 'complete enumeration of the table and its one-edit neighbourhood',
-         "Every CSV row x 5 case variants x 0-4 preceding labels (8 shapes incl. 7-letter, 63-letter, TLD and reserved names), as first/middle label before an unlisted label, every proper prefix/suffix, deletion, substitution, insertion over [a-z0-9-] of every row behind two prefixes, every 1-3 character last label, single labels, every U-label of raw.csv in mode 6531; 4 modes, direct and through the object API with allow-all / allow-none masks.",
+         "Every CSV row x 5 case variants x 0-4 preceding labels (8 shapes incl. 7-letter, 63-letter, TLD and reserved names), as first/middle label before an unlisted label, every proper prefix/suffix, deletion, substitution, insertion over [a-z0-9-] of every row behind two prefixes, every 1-3 character last label, single labels, every U-label of raw.csv in mode 6531, every row of the library's own tld_list (lower and upper case) as last label; 4 modes, direct and through the object API with allow-all / allow-none masks.",
          "The class map is read from data/punycode.csv by the harness's own CSV reader with the generator's documented rule; ASCII spellings that libidn2 refuses in mode 6531 are skipped there (C10).", '4/C07'),
  'C08': ('exploration', 'E-INPUT', 'complete enumeration of the finite configuration space',
-         "All 2^11 masks x 4 modes x tld_check on/off x (two real addresses per class present in the table, reserved names, unlisted TLD, single label, IPv4/IPv6 literals, syntactically invalid addresses) plus a caller-installed callback returning each class 1..9, 0 and each negative code (reaches the 'test' and 'retired' arms); eav_init defaults and bit numbering.",
+         "All 2^11 masks x 4 modes x tld_check on/off x (two real addresses per class present in the table, reserved names, unlisted TLD, single label, IPv4/IPv6 literals, syntactically invalid addresses) plus a caller-installed callback returning each class 1..9, 0 and each negative code (reaches the 'test' and 'retired' arms); eav_init defaults and bit numbering. Plus the 'veto' product over 7 address corpora x 14 masks (0, all, default, each single bit) x tld on/off x 4 modes: the mask is irrelevant with tld_check off; accepted under some mask => accepted with tld_check off; reference REJECT => refused under every mask.",
          "The callback injection uses the public ascii_cb/utf8_cb fields.", '4/C08'),
  'C09': ('exploration', 'E-INPUT', 'bounded-exhaustive enumeration of label lengths, case patterns and edit neighbours',
          "8 reserved suffixes x a preceding label of EVERY length 0..63 (5 contents incl. 7-letter words) x all 2^letters case patterns; second label of every length 1..63, third label lengths; every one-edit neighbour of each suffix behind 9 prefixes in 2 cases; 4 modes and is_special_domain directly.",
          "Domains with a root dot are outside the statement.", '4/C09'),
  'C10': ('exploration', 'E-INPUT', 'bounded-exhaustive enumeration with an independent conversion as oracle',
-         "All labels of 1-2 (3) symbols over 35 symbols of 8 scripts + ASCII in 1-3-label domains x 4 suffixes, every table row as last label, every IDN TLD in U- and A-form, all ASCII strings over {a,Z,1,-,.,xn--,com}, every 2-byte pattern inside a label, symbol/hyphen/length families: (6531,U)==(6531,A) in rc and flags, ASCII modes == 6531 on the A-label, all-ASCII clauses, rejection when the independent conversion fails. Plus the long-input corpora and ordered-pair sweeps (every ordered pair of a family of long domains sharing a >= 255-byte prefix, and of the 1296 domains b.XY, second right after the first).",
+         "All labels of 1-2 (3) symbols over 35 symbols of 8 scripts + ASCII in 1-3-label domains x 4 suffixes, every table row as last label, every IDN TLD in U- and A-form, all ASCII strings over {a,Z,1,-,.,xn--,com}, every 2-byte pattern inside a label, symbol/hyphen/length families: (6531,U)==(6531,A) in rc and flags, ASCII modes == 6531 on the A-label, all-ASCII clauses, rejection when the independent conversion fails. Plus the long-input corpora and ordered-pair sweeps (every ordered pair of a family of long domains sharing a >= 255-byte prefix, and of the 1296 domains b.XY, second right after the first), every Unicode scalar value as a label of its own and after a letter, every default-ignorable code point as a whole domain.",
          "IDNA2008 validity itself is libidn2's (DC-6).", '4/C10'),
  'C11': ('exploration', 'E-INPUT + translation validation', 'complete enumeration of a finite artefact + re-running the generators',
-         "Every CSV row looked up (5 case variants) and compared with tld_list[] entry by entry (order, count, length field, class, lower-case A-label, duplicates); every 1-3 character label and every one-edit neighbour / proper prefix / suffix of every row must be unlisted unless the CSV lists it; tld-domains.txt and raw.csv row by row; both Perl generators are executed on the shipped CSVs (Text::CSV stand-in cross-checked against Python's csv) and their output compared line by line with the shipped files.",
+         "Every CSV row looked up (5 case variants, through is_tld and through the four address validators with TLD check on) and compared with tld_list[] entry by entry (order, count, length field, class, lower-case A-label, duplicates); every 1-3 character label and every one-edit neighbour / proper prefix / suffix of every row must be unlisted unless the CSV lists it; tld-domains.txt and raw.csv row by row; both Perl generators are executed on the shipped CSVs (Text::CSV stand-in cross-checked against Python's csv) and their output compared line by line with the shipped files.",
          "Text::CSV is not installed; a 50-line stand-in is used and cross-checked row by row.", '4/C11'),
  'C12': ('exploration', 'E-INPUT', 'bounded-exhaustive enumeration with relational oracles (no model)',
          "The nine corpora in 4 modes x tld on/off: pure-ASCII addresses without quote/backslash in the local part get the same rc in all modes (6531 may say IDN error); accepted in 5321 => same rc in 822; x@D gives identical rc and flags in the three ASCII modes. Plus the ordered-pair sweep over the 1296 addresses x@b.XY (each relation checked for the second address right after the first, same mode and tld_check).",
          "No reference model is involved.", '4/C12'),
  'C13': ('model_checking', 'E-HIST', 'explicit-state BFS over API histories to a fixpoint, every transition a real library call',
-         "BFS over {rfc:=6 values, tld_check:=2, allow_tld:=3/4 masks, eav_setup, eav_is_email(8/16 addresses), eav_free;eav_init}, states = canonical serialisation of the whole eav_t + model variables, to the fixpoint (8k/21k states): every eav_is_email outcome (return, errcode, message, result record) equals a fresh object's with the confirmed mode and current settings; errstr stable; at most one live result record; eav_free releases everything; free+init == first init; every transition replayed under 2/4 poison fills of the object memory. A second search adds a second, independent eav_t validated in between (its calls must not change the first object, and vice versa). Pool of 11/20 addresses incl. two > 255-byte U-label domains sharing 255 bytes, a > 320-byte address and a 300-character label; an ordered-pair sweep over 1296 addresses x 3 configurations on one object.",
+         "BFS over {rfc:=6 values, tld_check:=2, allow_tld:=3/4 masks, eav_setup, eav_is_email(8/16 addresses), eav_free;eav_init}, states = canonical serialisation of the whole eav_t + model variables, to the fixpoint (8k/21k states): every eav_is_email outcome (return, errcode, message, result record) equals a fresh object's with the confirmed mode and current settings; errstr stable; at most one live result record; eav_free releases everything; free+init == first init; every transition replayed under 2/4 poison fills of the object memory. A second search adds a second, independent eav_t validated in between (its calls must not change the first object, and vice versa). Pool of 11/20 addresses incl. two > 255-byte U-label domains sharing 255 bytes, a > 320-byte address and a 300-character label; an ordered-pair sweep over 1296 addresses x 3 configurations on one object; a cross-mode pair product: every ordered pair of 150 feature addresses (rooted / upper-case / IDN / literal / degenerate shapes) x every ordered pair of the 8 (mode, tld_check) configurations, first call on one object and second on another, and both on one object with a mode switch in between, second outcome == outcome in a fresh library state.",
          "Two histories with the same canonical state have the same futures because the state contains every field the API reads (checked by the poison differential and by E-SCHED's constant digest of the library's static data).", '5/C13, 3.2'),
  'C14': ('model_checking', 'E-SCHED', 'controlled-scheduler exploration of all interleavings (state-caching DFS, preemption-bounded fall-back) + free-running TSan pass',
          "10 two-thread (thorough +4 three-thread) harnesses of real pthreads under a semaphore hand-off scheduler with scheduling points at every basic-block edge, every load/store of shared memory and every libc call of the library; state = (progress vector, digest of libeav's static data + shared input strings); DFS with a visited set covers all interleavings while the digest is constant, else iterative preemption bounding 0..2(3); oracle = every thread's observations equal the sequential run. The same bodies plus 2..16-thread validation loops run free under ThreadSanitizer.",
@@ -51,19 +51,19 @@ T = {
          "The nine corpora through eav_is_email in 4 modes x {tld off, tld on default mask, tld on mask 0}: return 1 iff errcode 0; message non-empty and the documented one for the code (IDN: idn2_strerror of the returned code); one truth predicate per error code evaluated on the input (on the A-label form in mode 6531); every code is produced (test/retired through an injected callback); eav_setup over 14 rfc values x 5 prior modes x 3 backends.",
          "The message table is a frozen copy of the documented texts.", '5/C15'),
  'C16': ('exploration', 'E-INPUT', 'bounded-exhaustive enumeration with invariants on the result record',
-         "The nine corpora, 4 modes x tld on/off, default build and -DEAV_EXTRA build: at most one flag; rc>=0 => exactly one flag matching the form (host name / IPv4 / IPv6 per the reference); either half syntactically invalid (reference) => no flag; rc domain (0 without TLD check, class only for host names with TLD check, negative otherwise); EXTRA: lpart/domain byte-equal to the halves on acceptance, NULL when syntactically invalid. The same invariants are checked on eav_t.result of long-lived objects after eav_is_email (return value, errcode and record must agree; no stale record).",
+         "The nine corpora, 4 modes x tld on/off, default build and -DEAV_EXTRA build: at most one flag; rc>=0 => exactly one flag matching the form (host name / IPv4 / IPv6 per the reference); either half syntactically invalid (reference) => no flag; rc domain (0 without TLD check, class only for host names with TLD check, negative otherwise); EXTRA: lpart/domain byte-equal to the halves on acceptance, NULL when syntactically invalid. The same invariants are checked on eav_t.result of long-lived objects after eav_is_email (return value, errcode and record must agree; no stale record). The corpora include 40 local-part shapes holding what the domain-part parsers look for x 36 domain parts.",
          "DC-5/DC-7: flags of policy rejections and rc of accepted literals with TLD checking are only loosely pinned by the statement.", '5/C16'),
  'C17': ('exploration', 'E-INPUT', 'differential enumeration over 8 side-by-side builds',
-         "8 option builds loaded side by side; every corpus address, 4 modes x tld on/off; each build compared with the one having one option fewer (deltas compose): RFC20, UNDERSCORE, RFC5322 change exactly the documented decisions (reference-checked) and nothing else; is_6531_local == is_5322_local on pure-ASCII local parts in RFC5322 builds, malformed UTF-8 stays rejected; make -n shows the three -D flags exactly when requested and none by default.",
+         "8 option builds loaded side by side; every corpus address, 4 modes x tld on/off; each build compared with the one having one option fewer (deltas compose): RFC20, UNDERSCORE, RFC5322 change exactly the documented decisions (reference-checked) and nothing else; is_6531_local == is_5322_local on pure-ASCII local parts in RFC5322 builds, malformed UTF-8 stays rejected; in every build the mode-6531 local-part verdict does not depend on which well-formed non-ASCII characters are used (each replaced by U+0416); make -n shows the three -D flags exactly when requested and none by default.",
          "DC-3: RFC5322 builds on local parts mixing non-ASCII with control/whitespace are only required to reject malformed UTF-8.", '5/C17'),
  'C18': ('model_checking', 'E-HIST', 'lock-step explicit-state BFS over three backend builds + resource ledger',
          "partial/idn and partial/idnkit are compiled unmodified against stub headers whose implementation forwards to the same libidn2 converter; the C13 search runs with the three objects advanced in lock-step (state = triple): equal outcome at every step; idnkit resolver-context ledger (<=1 live, never destroy/use dead, released by setup to an ASCII mode and by eav_free); a second search on the idnkit build alone with idn_resconf_create / initialize failures as transitions; the corpora (table rows, IDN products, token odometers, byte sweeps) through the three builds side by side, outcome strings compared.",
          "What the real libidn / idnkit would convert differently is out of scope ('given equivalent IDN conversions').", '5/C18'),
  'C19': ('fault_enumeration', 'E-HIST', 'explicit-state BFS with environment-fault transitions + exhaustive single/double fault runs',
-         "The conversion call is interposed (-Wl,--wrap=idn2_to_ascii_8z): the C13 search with transitions carrying any of 31 libidn2 codes x {no output buffer, buffer allocated} (<=2 faults per history), plus runs of n=1..8 (50) validations with a single fault at every position x every code x both buffer modes and all double faults for n<=6 over 6 codes: faulted call rejected with EEAV_IDN_ERROR, idn_rc, the library's message, no flag; ledger: no leak, no double free; the next call equals a fresh object's.",
+         "The conversion call is interposed (-Wl,--wrap=idn2_to_ascii_8z): the C13 search with transitions carrying any of 31 libidn2 codes x {no output buffer, buffer allocated} (<=2 faults per history), plus runs of n=1..8 (50) validations with a single fault at every position x every code x both buffer modes and all double faults for n<=6 over 6 codes: faulted call rejected with EEAV_IDN_ERROR, idn_rc, the converter's own message (idn2_strerror of the code, also with tld_check off), no flag; ledger: no leak, no double free; the next call equals a fresh object's.",
          "The fault model is the return value / output buffer of the one conversion call the library makes.", '5/C19'),
  'C20': ('exploration', 'E-INPUT', 'bounded-exhaustive enumeration of input files through the real binary under sanitizers',
-         "All sequences of 0..2 (3) lines over 17 (26) line shapes x LF/CRLF per line x final newline, long lines 1023..8192 bytes (ASCII, multi-byte, one straddling 2048), NUL-containing files: bin/*.c built with ASan+UBSan+LSan and linked shared like bin/Makefile; exit status, one verdict per non-comment line in order, verdict and message equal the library's (plain build via ctypes) after the documented trimming, clean UTF-8 lines echoed verbatim. Plus every line length within +-6 of 128..4096 (powers of two) followed by further lines.",
+         "All sequences of 0..2 (3) lines over 17 (26) line shapes x LF/CRLF per line x final newline, long lines 1023..8192 bytes (ASCII, multi-byte, one straddling 2048), NUL-containing files: bin/*.c built with ASan+UBSan+LSan and linked shared like bin/Makefile; exit status, one verdict per non-comment line in order, verdict and message equal the library's (plain build via ctypes) after the documented trimming, clean UTF-8 lines echoed verbatim. Plus every line length within +-6 of 128..4096 (powers of two) followed by further lines, and a 2-/3-/4-byte character whose lead byte sits 0..w+1 bytes before each multiple of 256..8192 on longer lines.",
          "Lines containing NUL only require robustness and one verdict.", '5/C20'),
 }
 
